@@ -130,7 +130,7 @@ func edgeCav(r *rng.R, depth int) m.Cav {
 	case 13:
 		return m.Cav{Kind: "CFlySrc", S: [3]string{edgeStr(r), rng.Pick(r, uStr), edgeStr(r)}}
 	case 14:
-		return m.Cav{Kind: "CUnregistered", ID: rng.Pick(r, []uint64{200, 1 << 16, 1 << 33, 1 << 50, math.MaxUint64 - 1}), Body: randMsgpack(r, 3)}
+		return m.Cav{Kind: "CUnregistered", ID: rng.Pick(r, []uint64{200, 1 << 16, 1 << 33, 1 << 50, math.MaxUint64 - 5}), Body: randMsgpack(r, 3)}
 	}
 	return randCav(r, depth, now)
 }
@@ -230,8 +230,108 @@ func obCoq(b *[]byte) string {
 	return "(Some " + coqw.Packed(*b) + ")"
 }
 
+// three user-defined caveat types at the bottom, the middle and the top of the user range (JSON writes such types as
+// decimal numbers: every 64-bit number has to survive the round trip)
+type hcBody struct {
+	V uint64 `json:"v"`
+}
+type hcLow struct{ hcBody }
+type hcMid struct{ hcBody }
+type hcMax struct{ hcBody }
+
+func (*hcLow) CaveatType() macaroon.CaveatType { return macaroon.CavMinUserDefined + 7 }
+func (*hcMid) CaveatType() macaroon.CaveatType { return 1<<63 + 7 }
+func (*hcMax) CaveatType() macaroon.CaveatType { return macaroon.CavMaxUserDefined }
+func (*hcLow) Name() string                    { return "HarnessLow" }
+func (*hcMid) Name() string                    { return "HarnessMid" }
+func (*hcMax) Name() string                    { return "HarnessMax" }
+func (c *hcBody) Prohibits(macaroon.Access) error {
+	if c.V == 0 {
+		return nil
+	}
+	return fmt.Errorf("%w: harness caveat", macaroon.ErrUnauthorized)
+}
+
+var hcOnce bool
+
+func genJSONTypes(c *ctx, st *cs.Stream) {
+	if !hcOnce {
+		hcOnce = true
+		macaroon.RegisterCaveatType(&hcLow{})
+		macaroon.RegisterCaveatType(&hcMid{})
+		macaroon.RegisterCaveatType(&hcMax{})
+	}
+	r := c.r
+	typeField := func(cav macaroon.Caveat) (string, bool) {
+		js, err := json.Marshal(macaroon.NewCaveatSet(cav))
+		var doc []struct {
+			Type string `json:"type"`
+		}
+		if err != nil || json.Unmarshal(js, &doc) != nil || len(doc) != 1 {
+			return "", false
+		}
+		return doc[0].Type, true
+	}
+	// writing: built-in types by name, user-defined ones by number
+	one := resset.ActionRead
+	for _, cav := range []macaroon.Caveat{&hcLow{hcBody{1}}, &hcMid{hcBody{2}}, &hcMax{hcBody{0}}, &flyio.Organization{ID: 1, Mask: resset.ActionRead}, &macaroon.ValidityWindow{NotBefore: 1, NotAfter: 2}, &one, &flyio.IsMember{}} {
+		tf, ok := typeField(cav)
+		oracle := ""
+		if !ok {
+			oracle = "JSON encoding of a registered caveat failed"
+		} else {
+			// and the whole round trip on the implementation: same type, same verdicts
+			js, _ := json.Marshal(macaroon.NewCaveatSet(cav))
+			back := macaroon.NewCaveatSet()
+			if err := json.Unmarshal(js, back); err != nil || len(back.Caveats) != 1 {
+				oracle = fmt.Sprintf("JSON round trip of a %s caveat fails: %v", cav.Name(), err)
+			} else if back.Caveats[0].CaveatType() != cav.CaveatType() {
+				oracle = fmt.Sprintf("JSON round trip turns caveat type %d (%s) into type %d (%T)", uint64(cav.CaveatType()), cav.Name(), uint64(back.Caveats[0].CaveatType()), back.Caveats[0])
+			}
+		}
+		st.Add(&cs.Case{Coq: coqw.App("KJTypePrint", coqw.N(uint64(cav.CaveatType())), coqw.Str(tf)),
+			Desc: map[string]any{"op": "JSON type field written", "caveat": cav.Name(), "type": uint64(cav.CaveatType()), "impl": tf}, Class: "json-type/print", Nontrivial: true, OracleFail: oracle})
+	}
+	// reading: names, numerals (boundaries, leading zeros, overflow), malformed numerals
+	nums := []uint64{0, 4, 31, 32, 200, 1 << 16, 1 << 32, 1<<48 - 1, 1 << 48, 1<<48 + 7, 1<<63 - 1, 1 << 63, 1<<63 + 7, 1<<64 - 3, 1<<64 - 2, 1<<64 - 1}
+	var strs []string
+	for _, n := range nums {
+		strs = append(strs, fmt.Sprint(n), "0"+fmt.Sprint(n), "000"+fmt.Sprint(n))
+	}
+	strs = append(strs, "18446744073709551616", "18446744073709551617", "99999999999999999999999", "184467440737095516150", "-1", "+1", "1_0", "0x10", "1e3", " 1", "1 ", "", "१", "HarnessLow", "HarnessMid", "HarnessMax", "Organization", "ValidityWindow", "3P", "NoSuchType", "organization")
+	n := 40
+	if c.thorough {
+		n = 2000
+	}
+	for i := 0; i < n; i++ {
+		strs = append(strs, fmt.Sprint(r.U64()>>uint(r.Intn(64))))
+	}
+	for _, s := range strs {
+		js, _ := json.Marshal([]map[string]any{{"type": s, "body": map[string]any{}}})
+		set := macaroon.NewCaveatSet()
+		body := "{}"
+		if err := json.Unmarshal(js, set); err != nil || len(set.Caveats) != 1 {
+			// a registered type whose body is not an object: retry with the bodies such types take
+			for _, b := range []string{`"r"`, `0`, `""`, `[]`, `null`} {
+				js = []byte(fmt.Sprintf(`[{"type":%q,"body":%s}]`, s, b))
+				set = macaroon.NewCaveatSet()
+				if json.Unmarshal(js, set) == nil && len(set.Caveats) == 1 {
+					body = b
+					break
+				}
+			}
+		}
+		if len(set.Caveats) != 1 || set.Caveats[0] == nil {
+			continue
+		}
+		st.Add(&cs.Case{Coq: coqw.App("KJTypeRead", coqw.Str(s), coqw.N(uint64(set.Caveats[0].CaveatType()))),
+			Desc: map[string]any{"op": "JSON type field read", "type_field": s, "body": body, "impl_type": uint64(set.Caveats[0].CaveatType())}, Class: "json-type/read", Nontrivial: true})
+	}
+}
+
 func genC11(c *ctx) {
 	st := c.set.Stream("codec", "Corr.RunM", "run", 120)
+	genJSONTypes(c, st)
 	r := c.r
 	n := 700
 	if c.thorough {
@@ -464,6 +564,15 @@ func exerciseToken(b []byte) {
 	mm.Verify(macaroon.NewSigningKey(), [][]byte{b}, nil)
 	mm.Add(&macaroon.ValidityWindow{NotBefore: 1, NotAfter: 2})
 	mm.Add3P(macaroon.NewEncryptionKey(), "https://tp.test")
+	// the other ways a third-party caveat reaches Add (the verifier key is sealed under the decoded, untrusted tail)
+	if m2, err := macaroon.Decode(b); err == nil {
+		if c3, err := macaroon.NewCaveat3P(macaroon.NewEncryptionKey(), "https://tp2.test"); err == nil {
+			m2.Add(c3, &macaroon.ValidityWindow{NotBefore: 1, NotAfter: 2})
+		}
+	}
+	if m3, err := macaroon.Decode(b); err == nil {
+		m3.Add(&macaroon.Caveat3P{Location: "https://tp3.test", Ticket: []byte{1, 2, 3}})
+	}
 	mm.Encode()
 	mm.String()
 	mm.Clone()
@@ -478,6 +587,9 @@ func exerciseHeader(h string) {
 		b.Header()
 		b.UndischargedThirdPartyTickets()
 		b.Attenuate(&macaroon.ValidityWindow{NotBefore: 1, NotAfter: 2})
+		if c3, err := macaroon.NewCaveat3P(macaroon.NewEncryptionKey(), "https://tp4.test"); err == nil {
+			b.Clone().Attenuate(c3)
+		}
 		one := uint64(1)
 		b.Validate(&flyio.Access{OrgID: &one})
 		b.Clone()
@@ -496,6 +608,7 @@ func genC12(c *ctx) {
 	worst := uint64(0)
 	worstIn := ""
 	panics := 0
+	remeasured := 0
 	for i := 0; i < n; i++ {
 		// a structurally valid token whose fields are then damaged
 		mm, _ := macaroon.New(r.Bytes(r.Intn(4)), "https://loc.test", key)
@@ -505,7 +618,11 @@ func genC12(c *ctx) {
 		wire, _ := mm.Encode()
 		var input []byte
 		kind := ""
-		switch r.Intn(10) {
+		switch r.Intn(11) {
+		case 9: // a well-formed token whose tail has the wrong size (the tail keys the seal of every third-party caveat added next)
+			n := rng.Pick(r, []int{0, 1, 16, 31, 33, 64})
+			input = append(append(append([]byte{}, wire[:len(wire)-34]...), 0xc4, byte(n)), r.Bytes(n)...)
+			kind = "off-size-tail"
 		case 0: // byte mutation
 			input = append([]byte{}, wire...)
 			for k := 1 + r.Intn(3); k > 0; k-- {
@@ -582,6 +699,34 @@ func genC12(c *ctx) {
 		bound := uint64(256*len(input)) + 64<<20
 		fail := ""
 		dbound := uint64(64*len(input)) + 8<<20
+		if dres.alloc > dbound || res.alloc > bound {
+			// The msgpack dependency keeps its read buffer in a sync.Pool'ed decoder: after a hostile length prefix the
+			// retained buffer grows by ~1.3 MB per further hostile call until a GC empties the pool, so the allocation
+			// of one call depends on the calls before it. The property speaks about one input; re-measure it from a
+			// fresh pool (two GCs empty sync.Pool and its victim cache) and judge that.
+			remeasured++
+			runtime.GC()
+			runtime.GC()
+			dres = measure(func() {
+				macaroon.Decode(in)
+				macaroon.DecodeCaveats(in)
+				macaroon.DecodeNonce(in)
+			})
+			runtime.GC()
+			runtime.GC()
+			res2 := measure(func() {
+				exerciseToken(in)
+				set, err := macaroon.DecodeCaveats(in)
+				if err == nil {
+					exerciseSet(set)
+				}
+				macaroon.DecodeNonce(in)
+				exerciseHeader(macaroon.ToAuthorizationHeader(in))
+			})
+			if res2.panicked == "" {
+				res = res2
+			}
+		}
 		if dres.panicked != "" {
 			fail = "panic while decoding: " + dres.panicked
 			panics++
@@ -608,8 +753,12 @@ func genC12(c *ctx) {
 			}
 			continue
 		}
+		hexLen := 80
+		if fail != "" {
+			hexLen = 4096 // a failing input is recorded in full so that the replay is self-contained
+		}
 		st.Add(&cs.Case{Coq: coqw.App("KSkip", coqw.Packed(input), coqw.Bool(err == nil), coqw.N(uint64(consumed))),
-			Desc: map[string]any{"kind": kind, "hex": fmt.Sprintf("%x", input[:imin(len(input), 80)]), "len": len(input), "alloc": res.alloc}, Class: "malformed/" + kind, Nontrivial: true, OracleFail: fail})
+			Desc: map[string]any{"kind": kind, "hex": fmt.Sprintf("%x", input[:imin(len(input), hexLen)]), "len": len(input), "alloc": res.alloc, "decode_alloc": dres.alloc}, Class: "malformed/" + kind, Nontrivial: true, OracleFail: fail})
 	}
 	// JSON documents and header strings
 	nj := 400
@@ -643,7 +792,8 @@ func genC12(c *ctx) {
 		}
 	}
 	c.set.Notes["fuzz"] = map[string]any{"inputs": n, "json_docs": nj, "panics": panics, "max_alloc_bytes": worst, "max_alloc_input_prefix": worstIn,
-		"alloc_bound": "256*len + 64 MiB (TotalAlloc delta over all operations on the input)"}
+		"alloc_bound": "256*len + 64 MiB (TotalAlloc delta over all operations on the input); decoding alone 64*len + 8 MiB",
+		"remeasured_from_fresh_pool": remeasured}
 }
 
 func edgeCavSmall(r *rng.R) m.Cav {
